@@ -1,4 +1,3 @@
-(* WIP *)
 (* Model of listeners/websocket.go: wsConn.Read / wsConn.Write, the adapter that lets the broker
    treat a WebSocket connection as a byte stream.  No proofs in this file.
 
@@ -166,16 +165,32 @@ Definition model_delivery (ms : list msg) : bytes * ending :=
   let total := length (stream ms) in
   let '(d, e, _) := read_all (repeat 2048%nat (S (S total))) (mkWs None ms) [] in (d, e).
 
+(* does anything follow the first non-binary message? *)
+Fixpoint sent_after_nonbinary (ms : list msg) : bool :=
+  match ms with
+  | [] => false
+  | m :: r => if is_binary m then sent_after_nonbinary r else negb (is_nil r)
+  end.
+
+Definition is_prefix (a b : bytes) : bool := beq_bytes (firstn (length a) b) a.
+
+(* When the client keeps sending after a non-binary message the broker closes a socket with
+   unread input; TCP then resets the connection and replies still in flight may never reach the
+   client.  In that situation only "what arrived is a prefix of the TCP replies" is decidable from
+   the observation; in every other case the replies must be equal. *)
 Definition ws_check (ms : list msg) (tcp_in : bytes) (out_ws : list msg) (out_tcp obs_ws obs_tcp : bytes)
                     (ended : bool) : val :=
   let data := filter (fun m => negb (is_control m)) ms in
   let '(d, e) := model_delivery data in
   let has_nonbin := negb (all_binary data) in
   let nontriv := (1 <? N.of_nat (length data)) in
-  let tg := if has_nonbin then tag "nonbinary" else tag "binary" in
+  let tg := if has_nonbin then (if sent_after_nonbinary data then tag "nonbinary-then-more" else tag "nonbinary-last")
+            else tag "binary" in
+  let replies_ok := if sent_after_nonbinary data then is_prefix (stream out_ws) out_tcp
+                    else beq_bytes (stream out_ws) out_tcp in
   if negb (beq_bytes d tcp_in) then bad_case             (* the harness' reference run used other bytes *)
   else if negb (all_binary out_ws) then verdict 1 (tag "reply-not-binary") nontriv []
-  else if negb (beq_bytes (stream out_ws) out_tcp) then verdict 1 (tag "replies-differ") nontriv [VB (stream out_ws)]
+  else if negb replies_ok then verdict 1 (tag "replies-differ") nontriv [VB (stream out_ws)]
   else if negb (beq_bytes obs_ws obs_tcp) then verdict 1 (tag "forwarded-differ") nontriv []
   else if has_nonbin && negb ended then verdict 1 (tag "nonbinary-not-ended") nontriv []
   else if negb has_nonbin && ended then verdict 1 (tag "binary-ended") nontriv []
